@@ -401,6 +401,10 @@ def gen_cases(rng, tier):
     cases.append(case_py7zr_sessions(rng, ["copy"], open_password="unneeded"))
     cases.append(case_py7zr_sessions(rng, ["lzma2", "deflate"], open_password="unneeded", encoded=False))
     cases.append(case_py7zr_sessions(rng, ["copy+aes"], encoded=False))
+    # mixed archives whose FIRST folder is plain and a later one encrypted (three folders, raw and encoded header)
+    cases.append(case_py7zr_sessions(rng, ["lzma2", "copy+aes"], encoded=True))
+    cases.append(case_py7zr_sessions(rng, ["copy", "deflate", "lzma2+aes"], encoded=False))
+    cases.append(case_py7zr_sessions(rng, ["copy", "zstd+aes", "lzma2"], encoded=True))
     if not quick:
         cases.append(case_py7zr_sessions(rng, ["copy+aes", "lzma2"], encoded=True))
         cases.append(case_py7zr_tree(rng, "lzma2+aes"))
@@ -831,8 +835,69 @@ def run(ctx):
     # archives, not over the way they are opened; recorded here, not judged.
     rep.extra["archiveinfo_on_nameless_stream"] = stream_results
     rep.extra["archives_per_failing_shape"] = {repr(dict(k)): n for k, n in reported.items()}
+    try:
+        check_open_session_listing(rep, rng, tier)
+    except Exception as e:  # noqa
+        import traceback
+        rep.violation("check_open_session_listing raised %s: %s" % (type(e).__name__, e),
+                      {"kind": "harness", "trace": traceback.format_exc()[-800:]}, concrete=False, match_keys={"kind": "harness"})
     rep.extra["note_list_timestamp"] = ("list() carries the previous member's timestamp over to a member without one "
                                         "(lastmodified is not reset per iteration); modelled (list_loop), not part of C10's statement")
+
+def check_open_session_listing(rep, rng, tier):
+    """the listing interfaces inside a session that is still writing (modes w and a): after every write call the names are the
+    names written so far, in order, and getinfo() finds each of them (and only them) -- asked before and after later writes"""
+    n = 12 if tier == "quick" else 200
+    for i in range(n):
+        chain = rng.choice(["copy", "lzma2", "deflate"])
+        names = rng.sample(NAME_POOL, min(len(NAME_POOL), rng.choice([2, 3, 4, 5])))
+        names = ["%s-%d" % (nm, j) for j, nm in enumerate(names)]
+        cut = rng.randrange(0, len(names))                 # members [0:cut] in session w, the rest in session a
+        bio = io.BytesIO()
+        written = []
+        problems = []
+
+        def look(z, where):
+            got = list(z.getnames())
+            if got != written:
+                problems.append("%s: getnames() = %r, written so far %r" % (where, got, written))
+            if list(z.namelist()) != got:
+                problems.append("%s: namelist() differs from getnames()" % where)
+            for nm in written:
+                try:
+                    fi = z.getinfo(nm)
+                    if fi.filename != nm:
+                        problems.append("%s: getinfo(%r).filename = %r" % (where, nm, fi.filename))
+                except Exception as e:  # noqa
+                    problems.append("%s: getinfo(%r) raises %s" % (where, nm, type(e).__name__))
+            try:
+                z.getinfo("never-written-name")
+                problems.append("%s: getinfo of an absent name returns" % where)
+            except KeyError:
+                pass
+            except Exception as e:  # noqa
+                problems.append("%s: getinfo of an absent name raises %s" % (where, type(e).__name__))
+
+        try:
+            for mode, part in (("w", names[:cut]), ("a", names[cut:])):
+                if mode == "a" and cut == 0:
+                    mode = "w"
+                bio.seek(0)
+                with py7zr.SevenZipFile(bio, mode, filters=arch.CHAINS[chain]) as z:
+                    look(z, "%s session, before any write" % mode)
+                    for nm in part:
+                        z.writestr(arch.pattern_bytes(rng, rng.choice([0, 1, 50, 300]), "text"), nm)
+                        written.append(nm)
+                        look(z, "%s session, after writing %r" % (mode, nm))
+        except Exception as e:  # noqa
+            problems.append("session raises %s: %s" % (type(e).__name__, str(e)[:120]))
+        rep.count(("open-session", i, chain, tuple(names), cut), nontrivial=len(names) > 1)
+        rep.dist("open_session_listing", "w:%d a:%d" % (cut, len(names) - cut))
+        if problems:
+            rep.violation("listing inside a writing session: %s [chain %s, names %r, w/a cut %d]" % (problems[0], chain, names, cut),
+                          {"kind": "open-session", "chain": chain, "names": names, "cut": cut, "problems": problems[:6]},
+                          match_keys={"kind": "open-session-listing"})
+            return
 
 
 def replay(d):
